@@ -7,13 +7,16 @@ PROP = {
     'lean_props': ['Comrak.Props.C02'],
     'lean_audit': ['Comrak.Audit.C02'],
     'required_theorems': ['html_safe', 'raw_html_only_placeholder', 'raw_html_escaped_when_escape',
-                          'no_dangerous_destination', 'dangerous_invariant_under_escapeHref', 'allowed_value_cannot_break_out'],
-    'strength': 'full at token level for every tree whose nodes are nodeSafe and every option vector with unsafe_ = false; '
-                'byte level by the lexer/vocabulary oracle on the real output',
+                          'no_dangerous_destination', 'dangerous_invariant_under_escapeHref', 'allowed_value_cannot_break_out',
+                          'dangerous_invariant_under_escapeHref_decoded', 'html_destinations_safe', 'safe_tokens_safe_bytes',
+                          'html_safe_bytes'],
+    'strength': 'full at token level and at byte level (html_safe_bytes: safeBytes (renderHtml o nt t) = ok) for every tree whose nodes '
+                'are nodeSafe and every option vector with unsafe_ = false; the byte oracle is also run on the real output',
     'trusted_base': HTML_TB + [
         "dangerous_url is a hand model of the re2c-generated scanner (four case-insensitive schemes, data:image/{png,gif,jpeg,webp} excepted); "
         "it is tied through the renderer correspondence on hostile URLs, not by enumeration",
-        "token spelling: K compares spell(renderToks) with the real bytes; lexHtml o spell is exercised on real output, not proved",
+        "token spelling: K compares spell(renderToks) with the real bytes; that the byte oracle accepts the spelled tokens is proved "
+        "(lex_spell, safe_tokens_safe_bytes, html_safe_bytes) and additionally exercised on real output",
     ],
     'assumptions': [
         'no user plugins / URL rewriters (excluded by the property)',
@@ -33,9 +36,12 @@ TEXT = {
             "no href/src destination matched by the dangerous-scheme rule is ever written. Tie to the code: byte-equality of real "
             "format_html output with the spelled model tokens on generated documents (hostile payloads in every string position) and "
             "directly built trees x random option vectors on every run; the byte-level oracle (Lean lexer + vocabulary + escaping + "
-            "destination check) is run on the real output.",
+            "destination check) is run on the real output. Token level and byte level are connected in Lean: the byte lexer provably "
+            "inverts the spelling of allowed tokens, spelled values and text are in the oracle's safe value language, escape_href "
+            "followed by entity decoding preserves the dangerous_url verdict, every href/src value written decodes to a "
+            "non-dangerous URL (html_destinations_safe), hence safeBytes accepts the rendered bytes (html_safe_bytes).",
     'note': 'Trusted: Lean kernel + standard axioms; harness/driver; hand model of the dangerous_url scanner; recursive traversal for the '
-            'work stack; token-to-byte lexing exercised, not proved; treeSafe/NormSafe/prefix hypotheses checked per run or assumed as stated.',
+            'work stack; token-to-byte lexing proved (html_safe_bytes) and exercised; treeSafe/NormSafe/prefix hypotheses checked per run or assumed as stated.',
     'technique': 'Lean 4 theorem by mutual structural induction over Tree/Forest with per-kind lemmas + differential correspondence '
                  '(byte-equal HTML) + lexer/vocabulary oracle on real output',
     'design_ref': 'DESIGN.md section 7, C02',
